@@ -86,7 +86,7 @@ pub fn profile(name: &str) -> Profile {
         "C05" => Profile { name: "C05", kinds: [2, 1, 10, 1, 0, 0, 0, 0, 0], w_advance: 6, err_returns: true, ..base },
         "C06" => Profile { name: "C06", w_token: 9, w_insert: 7, reuse_bias: 3, ..base },
         "C07" => Profile { name: "C07", w_token: 10, err_returns: true, ..base },
-        "C08" => Profile { name: "C08", script_len: (1, 5), script_ops: (1, 6), w_idle: 4, ..base },
+        "C08" => Profile { name: "C08", kinds: [3, 3, 3, 3, 1, 3, 1, 0, 0], adapters: 3, script_len: (1, 5), script_ops: (1, 6), w_idle: 4, ..base },
         "C09" => Profile { name: "C09", kinds: [2, 1, 2, 8, 0, 0, 0, 0, 0], err_returns: true, script_len: (1, 5), ..base },
         "C10" => Profile { name: "C10", kinds: [1, 1, 1, 0, 0, 8, 5, 0, 0], w_cause: 14, ..base },
         "C17" => Profile { name: "C17", kinds: [1, 0, 1, 0, 0, 8, 0, 0, 0], adapters: 12, w_cause: 10, max_sources: 4, natural_faults: true, ..base },
